@@ -276,6 +276,10 @@ def run(ctx):
                         j = _skip_group(toks, i + 5)
                     if ctor == "accumulator":
                         continue
+                    if ctor == "from":
+                        # `::darling::Error::from` as a fn value or call: the only `From` impl of Error is
+                        # From<syn::Error>, which takes the span of the syn error (C03.G span writers)
+                        continue
                     n_t += 1
                     spanned = toks[j:j + 3] == [".", "with_span", "("]
                     key = (b.owner_fn or b.key, ctor)
